@@ -124,6 +124,11 @@ def add_header_to_file(
         out.write("\n")
         return result
 
+    # A byte order mark must remain the very first character of the file.
+    bom = ""
+    if text.startswith("\ufeff"):
+        bom, text = text[0], text[1:]
+
     # Detect and remember line endings for later conversion.
     line_ending = detect_line_endings(text)
     # Normalise line endings.
@@ -168,7 +173,7 @@ def add_header_to_file(
         result = 1
     else:
         with open(path, "w", encoding="utf-8", newline=line_ending) as fp:
-            fp.write(output)
+            fp.write(bom + output)
         # TODO: This may need to be rephrased more elegantly.
         out.write(_("Successfully changed header of {path}").format(path=path))
         out.write("\n")
